@@ -26,6 +26,7 @@ def main():
     out = ["# Seeded breakages", "",
            "Each directory holds `patch.diff`, the demonstration `demo.py`, the author's `notes.md` and `meta.json` (what it needs to manifest, what was run to confirm it, which checks detect it).",
            "All were written by sub-agents that saw only the text of one property and a scratch worktree (nothing from /verif), then confirmed here in a fresh scratch worktree: the demonstration passes on the unchanged tree and fails with the change, and the repository's test suite passes exactly the baseline's stable set with the change applied.",
+           "Each `patch.diff` applies to the `base_commit` recorded in its `meta.json` (the repository HEAD when the seed was written); where a later `fix:` commit rewrote the same lines, confirm / detect with `SEED_BASE=<base_commit> python3 mc/seedtest.py ...`.",
            "", "| seed | property | confirmed | detected by (quick tier) | by its own check | rounds 3-4: by its own check as it stood when the seed arrived | what it is |", "|---|---|---|---|---|---|---|"]
     for r in rows:
         out.append("| " + " | ".join(r) + " |")
